@@ -5,7 +5,8 @@ OM = "ghedesigner.output:OutputManager"
 FUNCTIONS = [f"{G}:GHE.size", f"{G}:GHE.size#hourly", f"{U}:solve_root", f"{G}:BaseGHE.cost", f"{S}:Bisection1D.calculate_excess", f"{S}:RowWiseModifiedBisectionSearch.calculate_excess", f"{S}:RowWiseModifiedBisectionSearch.search#without-perimeter-ratio", f"{S}:RowWiseModifiedBisectionSearch.search#with-perimeter-ratio",
              f"{S}:Bisection1D.search#nocap", f"{S}:Bisection1D.search#cap", f"{S}:BisectionZD.search_successive#nocap", f"{S}:BisectionZD.search_successive#cap",
              f"{OM}.get_summary_object", f"{OM}.get_borehole_location_data"]
-NATIVE_FUNCTIONS = [f"{G}:GHE.size"]
+NATIVE_FUNCTIONS = [f"{G}:GHE.size", f"{G}:GHE.size#hourly"]
+NATIVE_CASES_BY_FUNCTION = {f"{G}:GHE.size#hourly": {"quick": 6, "thorough": 200}}
 NATIVE_CASES = {"quick": 6, "thorough": 150}
 NATIVE_LIMIT_S = {"quick": 150, "thorough": 1500}
 CASE_TIMEOUT = 120
